@@ -221,6 +221,164 @@ theorem soft_div_correctly_rounded (f : Fmt) (hf : 2 ≤ f.p ∧ 2 ≤ f.ew) (a 
     toQ f (FAVerif.FP.div f a b) = some (rne (qf f hf.1) (valQ s m e / valQ t n e')) :=
   div_correct f ⟨hf.1, hf.2⟩ a b s t m n e e' ha hb hn hfin
 
+/-! ### Veltkamp's splitter and Dekker's product -/
+
+/-- **Veltkamp's splitter** (`fpa.split_veltkamp(x, scale=False)` with C = 2^s + 1): for every
+precision p ≥ 2, every 1 ≤ s < p, every emin, any round-to-nearest (ties arbitrary) and every
+normal x = k·2^e (2^(p-1) ≤ |k| < 2^p, e ≥ emin), absent overflow: the program returns (xh, xl)
+with xh + xl = x exactly; xh is a multiple of 2^(e+s) with |xh| ≤ 2^p·2^e — at most p − s significant
+bits; xl is a multiple of 2^e with |xl| ≤ 2^(s-1)·2^e — at most s − 1 bits and a sign.  With
+s = ⌈p/2⌉ both halves fit in half the significand. -/
+theorem veltkamp_split (q : QFmt) (r : ℚ → ℚ) (hr : IsRN q r) (f : Fmt) (cb : Nat) (s : ℕ)
+    (hC : (decode f cb).toRat? = some (2 ^ s + 1)) (hs1 : 1 ≤ s) (hsp : s < q.p) (k e : ℤ)
+    (hk1 : 2 ^ (q.p - 1) ≤ |k|) (hk2 : |k| < 2 ^ q.p) (he : q.emin ≤ e) :
+    ∃ xh xl : ℚ, evalQ f r (splitV cb) splitVOuts [(k : ℚ) * 2 ^ e] = some [xh, xl] ∧
+      xh + xl = (k : ℚ) * 2 ^ e ∧ Mult (e + s) xh ∧ |xh| ≤ 2 ^ q.p * 2 ^ e ∧ Mult e xl ∧ |xl| ≤ 2 ^ (e + s) / 2 :=
+  EFT.splitV_prog hr f cb hC hs1 hsp hk1 hk2 he
+
+/-- The coding used by `utils.split_veltkamp` (d = x − g, xh = g + d): same statement. -/
+theorem veltkamp_split_utils (q : QFmt) (r : ℚ → ℚ) (hr : IsRN q r) (f : Fmt) (cb : Nat) (s : ℕ)
+    (hC : (decode f cb).toRat? = some (2 ^ s + 1)) (hs1 : 1 ≤ s) (hsp : s < q.p) (k e : ℤ)
+    (hk1 : 2 ^ (q.p - 1) ≤ |k|) (hk2 : |k| < 2 ^ q.p) (he : q.emin ≤ e) :
+    ∃ xh xl : ℚ, evalQ f r (splitVU cb) splitVOuts [(k : ℚ) * 2 ^ e] = some [xh, xl] ∧
+      xh + xl = (k : ℚ) * 2 ^ e ∧ Mult (e + s) xh ∧ |xh| ≤ 2 ^ q.p * 2 ^ e ∧ Mult e xl ∧ |xl| ≤ 2 ^ (e + s) / 2 :=
+  EFT.splitVU_prog hr f cb hC hs1 hsp hk1 hk2 he
+
+/-- **Dekker's product** (`fpa.mul_dekker(x, y, scale=False, fix_overflow=False)`, C = 2^s + 1):
+for every precision with p ≤ 2s ≤ p + 2 and s + 2 ≤ p (s = ⌈p/2⌉ qualifies for every p ≥ 4), every
+emin, any round-to-nearest, all normal x = kx·2^ex, y = ky·2^ey whose product's error term cannot
+underflow (ex + ey ≥ emin), absent overflow: h = RN(x·y) and h + l = x·y exactly — each of the four
+partial products and each of the four partial sums of `mul_dw` is computed without rounding error. -/
+theorem dekker_product (q : QFmt) (r : ℚ → ℚ) (hr : IsRN q r) (f : Fmt) (cb : Nat) (s : ℕ)
+    (hC : (decode f cb).toRat? = some (2 ^ s + 1)) (h2s : q.p ≤ 2 * s) (h2s2 : 2 * s ≤ q.p + 2) (hs2 : s + 2 ≤ q.p)
+    (kx ky ex ey : ℤ) (hkx1 : 2 ^ (q.p - 1) ≤ |kx|) (hkx2 : |kx| < 2 ^ q.p) (hky1 : 2 ^ (q.p - 1) ≤ |ky|) (hky2 : |ky| < 2 ^ q.p)
+    (hex : q.emin ≤ ex) (hey : q.emin ≤ ey) (he : q.emin ≤ ex + ey) (x y : ℚ) (hx : x = (kx : ℚ) * 2 ^ ex) (hy : y = (ky : ℚ) * 2 ^ ey) :
+    evalQ f r (mulDekker cb) mulDekkerOuts [x, y] = some [r (x * y), x * y - r (x * y)] :=
+  EFT.mulDekker_prog hr f cb hC h2s h2s2 hs2 hkx1 hkx2 hky1 hky2 hex hey he x y hx hy
+
+/-- `utils.multiply_dekker` and `utils.square_dekker`: the same. -/
+theorem dekker_product_utils (q : QFmt) (r : ℚ → ℚ) (hr : IsRN q r) (f : Fmt) (cb : Nat) (s : ℕ)
+    (hC : (decode f cb).toRat? = some (2 ^ s + 1)) (h2s : q.p ≤ 2 * s) (h2s2 : 2 * s ≤ q.p + 2) (hs2 : s + 2 ≤ q.p)
+    (kx ky ex ey : ℤ) (hkx1 : 2 ^ (q.p - 1) ≤ |kx|) (hkx2 : |kx| < 2 ^ q.p) (hky1 : 2 ^ (q.p - 1) ≤ |ky|) (hky2 : |ky| < 2 ^ q.p)
+    (hex : q.emin ≤ ex) (hey : q.emin ≤ ey) (he : q.emin ≤ ex + ey) (x y : ℚ) (hx : x = (kx : ℚ) * 2 ^ ex) (hy : y = (ky : ℚ) * 2 ^ ey) :
+    evalQ f r (mulDekkerU cb) mulDekkerOuts [x, y] = some [r (x * y), x * y - r (x * y)] ∧
+    (ex + ex ≥ q.emin → evalQ f r (squareDekkerU cb) squareDekkerUOuts [x] = some [r (x * x), x * x - r (x * x)]) :=
+  ⟨EFT.mulDekkerU_prog hr f cb hC h2s h2s2 hs2 hkx1 hkx2 hky1 hky2 hex hey he x y hx hy,
+   fun h => EFT.squareDekkerU_prog hr f cb hC h2s h2s2 hs2 hkx1 hkx2 hex h x hx⟩
+
+/-- the splitting constants of the three formats, as bit patterns, and their values 2^⌈p/2⌉ + 1 -/
+theorem split_constants :
+    (decode binary16 21520).toRat? = some (2 ^ 6 + 1) ∧ (decode binary32 1166018560).toRat? = some (2 ^ 12 + 1) ∧
+    (decode binary64 4728779608772575232).toRat? = some (2 ^ 27 + 1) := by decide +kernel
+
+/-- **Tie to the source**: the programs traced from the current /repo for `fpa.split_veltkamp`,
+`utils.split_veltkamp`, `fpa.mul_dekker(scale=False)`, `utils.multiply_dekker`, `utils.square_dekker`
+(float16/32/64) are node for node the specification programs above, with the constants of
+`split_constants`.  Re-checked by the kernel against the regenerated file on every run. -/
+theorem ties_split_dekker :
+    (∀ e ∈ [(split_veltkamp_f16, 21520), (split_veltkamp_f32, 1166018560), (split_veltkamp_f64, 4728779608772575232)],
+        e.1.nodes = splitV e.2 ∧ e.1.outs = splitVOuts) ∧
+    (∀ e ∈ [(utils_split_veltkamp_f16, 21520), (utils_split_veltkamp_f32, 1166018560), (utils_split_veltkamp_f64, 4728779608772575232)],
+        e.1.nodes = splitVU e.2 ∧ e.1.outs = splitVOuts) ∧
+    (∀ e ∈ [(mul_dekker_f16, 21520), (mul_dekker_f32, 1166018560), (mul_dekker_f64, 4728779608772575232)],
+        e.1.nodes = mulDekker e.2 ∧ e.1.outs = mulDekkerOuts) ∧
+    (∀ e ∈ [(utils_multiply_dekker_f16, 21520), (utils_multiply_dekker_f32, 1166018560), (utils_multiply_dekker_f64, 4728779608772575232)],
+        e.1.nodes = mulDekkerU e.2 ∧ e.1.outs = mulDekkerOuts) ∧
+    (∀ e ∈ [(utils_square_dekker_f16, 21520), (utils_square_dekker_f32, 1166018560), (utils_square_dekker_f64, 4728779608772575232)],
+        e.1.nodes = squareDekkerU e.2 ∧ e.1.outs = squareDekkerUOuts) ∧
+    [split_veltkamp_f16.fmt, split_veltkamp_f32.fmt, split_veltkamp_f64.fmt, utils_split_veltkamp_f16.fmt, utils_split_veltkamp_f32.fmt,
+     utils_split_veltkamp_f64.fmt, mul_dekker_f16.fmt, mul_dekker_f32.fmt, mul_dekker_f64.fmt, utils_multiply_dekker_f16.fmt,
+     utils_multiply_dekker_f32.fmt, utils_multiply_dekker_f64.fmt] =
+      [binary16, binary32, binary64, binary16, binary32, binary64, binary16, binary32, binary64, binary16, binary32, binary64] := by
+  decide
+
+/-- End to end on the regenerated programs: **Dekker's product of the current source is exact** in
+float16, float32 and float64 arithmetic of any emin, any round-to-nearest, for normal operands whose
+product's error term does not underflow, absent overflow. -/
+theorem dekker_generated (r : ℚ → ℚ) (kx ky ex ey : ℤ) (x y : ℚ) (hx : x = (kx : ℚ) * 2 ^ ex) (hy : y = (ky : ℚ) * 2 ^ ey) :
+    (∀ q : QFmt, q.p = 11 → IsRN q r → 2 ^ 10 ≤ |kx| → |kx| < 2 ^ 11 → 2 ^ 10 ≤ |ky| → |ky| < 2 ^ 11 →
+        q.emin ≤ ex → q.emin ≤ ey → q.emin ≤ ex + ey →
+        mul_dekker_f16.evalQ r [x, y] = some [r (x * y), x * y - r (x * y)] ∧
+        utils_multiply_dekker_f16.evalQ r [x, y] = some [r (x * y), x * y - r (x * y)]) ∧
+    (∀ q : QFmt, q.p = 24 → IsRN q r → 2 ^ 23 ≤ |kx| → |kx| < 2 ^ 24 → 2 ^ 23 ≤ |ky| → |ky| < 2 ^ 24 →
+        q.emin ≤ ex → q.emin ≤ ey → q.emin ≤ ex + ey →
+        mul_dekker_f32.evalQ r [x, y] = some [r (x * y), x * y - r (x * y)] ∧
+        utils_multiply_dekker_f32.evalQ r [x, y] = some [r (x * y), x * y - r (x * y)]) ∧
+    (∀ q : QFmt, q.p = 53 → IsRN q r → 2 ^ 52 ≤ |kx| → |kx| < 2 ^ 53 → 2 ^ 52 ≤ |ky| → |ky| < 2 ^ 53 →
+        q.emin ≤ ex → q.emin ≤ ey → q.emin ≤ ex + ey →
+        mul_dekker_f64.evalQ r [x, y] = some [r (x * y), x * y - r (x * y)] ∧
+        utils_multiply_dekker_f64.evalQ r [x, y] = some [r (x * y), x * y - r (x * y)]) := by
+  obtain ⟨c16, c32, c64⟩ := split_constants
+  obtain ⟨-, -, t3, t4, -, tf⟩ := ties_split_dekker
+  simp only [List.mem_cons, List.mem_nil_iff, or_false, forall_eq_or_imp, forall_eq] at t3 t4
+  obtain ⟨⟨a1, a2⟩, ⟨b1, b2⟩, ⟨d1, d2⟩⟩ := t3
+  obtain ⟨⟨u1, u2⟩, ⟨v1, v2⟩, ⟨w1, w2⟩⟩ := t4
+  simp only [List.cons.injEq, and_true] at tf
+  obtain ⟨-, -, -, -, -, -, g1, g2, g3, g4, g5, g6⟩ := tf
+  refine ⟨?_, ?_, ?_⟩
+  · intro q hq hr h1 h2 h3 h4 h5 h6 h7
+    unfold Prog.evalQ
+    rw [a1, a2, u1, u2, g1, g4]
+    have hp1 : q.p - 1 = 10 := by omega
+    exact ⟨dekker_product q r hr _ _ 6 c16 (by omega) (by omega) (by omega) kx ky ex ey (by rw [hp1]; exact h1) (by rw [hq]; exact h2)
+        (by rw [hp1]; exact h3) (by rw [hq]; exact h4) h5 h6 h7 x y hx hy,
+      (dekker_product_utils q r hr _ _ 6 c16 (by omega) (by omega) (by omega) kx ky ex ey (by rw [hp1]; exact h1) (by rw [hq]; exact h2)
+        (by rw [hp1]; exact h3) (by rw [hq]; exact h4) h5 h6 h7 x y hx hy).1⟩
+  · intro q hq hr h1 h2 h3 h4 h5 h6 h7
+    unfold Prog.evalQ
+    rw [b1, b2, v1, v2, g2, g5]
+    have hp1 : q.p - 1 = 23 := by omega
+    exact ⟨dekker_product q r hr _ _ 12 c32 (by omega) (by omega) (by omega) kx ky ex ey (by rw [hp1]; exact h1) (by rw [hq]; exact h2)
+        (by rw [hp1]; exact h3) (by rw [hq]; exact h4) h5 h6 h7 x y hx hy,
+      (dekker_product_utils q r hr _ _ 12 c32 (by omega) (by omega) (by omega) kx ky ex ey (by rw [hp1]; exact h1) (by rw [hq]; exact h2)
+        (by rw [hp1]; exact h3) (by rw [hq]; exact h4) h5 h6 h7 x y hx hy).1⟩
+  · intro q hq hr h1 h2 h3 h4 h5 h6 h7
+    unfold Prog.evalQ
+    rw [d1, d2, w1, w2, g3, g6]
+    have hp1 : q.p - 1 = 52 := by omega
+    exact ⟨dekker_product q r hr _ _ 27 c64 (by omega) (by omega) (by omega) kx ky ex ey (by rw [hp1]; exact h1) (by rw [hq]; exact h2)
+        (by rw [hp1]; exact h3) (by rw [hq]; exact h4) h5 h6 h7 x y hx hy,
+      (dekker_product_utils q r hr _ _ 27 c64 (by omega) (by omega) (by omega) kx ky ex ey (by rw [hp1]; exact h1) (by rw [hq]; exact h2)
+        (by rw [hp1]; exact h3) (by rw [hq]; exact h4) h5 h6 h7 x y hx hy).1⟩
+
+/-- End to end for the splitter: the regenerated `split_veltkamp` programs split every normal x of
+their format into halves of ⌊p/2⌋ and ⌈p/2⌉ − 1 (+ sign) bits that sum to x exactly. -/
+theorem split_generated (r : ℚ → ℚ) (k e : ℤ) :
+    (∀ q : QFmt, q.p = 11 → IsRN q r → 2 ^ 10 ≤ |k| → |k| < 2 ^ 11 → q.emin ≤ e →
+      ∃ xh xl : ℚ, split_veltkamp_f16.evalQ r [(k : ℚ) * 2 ^ e] = some [xh, xl] ∧ xh + xl = (k : ℚ) * 2 ^ e ∧
+        Mult (e + 6) xh ∧ |xh| ≤ 2 ^ 11 * 2 ^ e ∧ Mult e xl ∧ |xl| ≤ 2 ^ (e + 6) / 2) ∧
+    (∀ q : QFmt, q.p = 24 → IsRN q r → 2 ^ 23 ≤ |k| → |k| < 2 ^ 24 → q.emin ≤ e →
+      ∃ xh xl : ℚ, split_veltkamp_f32.evalQ r [(k : ℚ) * 2 ^ e] = some [xh, xl] ∧ xh + xl = (k : ℚ) * 2 ^ e ∧
+        Mult (e + 12) xh ∧ |xh| ≤ 2 ^ 24 * 2 ^ e ∧ Mult e xl ∧ |xl| ≤ 2 ^ (e + 12) / 2) ∧
+    (∀ q : QFmt, q.p = 53 → IsRN q r → 2 ^ 52 ≤ |k| → |k| < 2 ^ 53 → q.emin ≤ e →
+      ∃ xh xl : ℚ, split_veltkamp_f64.evalQ r [(k : ℚ) * 2 ^ e] = some [xh, xl] ∧ xh + xl = (k : ℚ) * 2 ^ e ∧
+        Mult (e + 27) xh ∧ |xh| ≤ 2 ^ 53 * 2 ^ e ∧ Mult e xl ∧ |xl| ≤ 2 ^ (e + 27) / 2) := by
+  obtain ⟨c16, c32, c64⟩ := split_constants
+  obtain ⟨t1, -, -, -, -, tf⟩ := ties_split_dekker
+  simp only [List.mem_cons, List.mem_nil_iff, or_false, forall_eq_or_imp, forall_eq] at t1
+  obtain ⟨⟨a1, a2⟩, ⟨b1, b2⟩, ⟨d1, d2⟩⟩ := t1
+  simp only [List.cons.injEq, and_true] at tf
+  obtain ⟨g1, g2, g3, -⟩ := tf
+  refine ⟨?_, ?_, ?_⟩
+  · intro q hq hr h1 h2 h5
+    unfold Prog.evalQ
+    rw [a1, a2, g1]
+    have hp1 : q.p - 1 = 10 := by omega
+    have := veltkamp_split q r hr binary16 21520 6 c16 (by omega) (by omega) k e (by rw [hp1]; exact h1) (by rw [hq]; exact h2) h5
+    rw [hq] at this; exact this
+  · intro q hq hr h1 h2 h5
+    unfold Prog.evalQ
+    rw [b1, b2, g2]
+    have hp1 : q.p - 1 = 23 := by omega
+    have := veltkamp_split q r hr binary32 1166018560 12 c32 (by omega) (by omega) k e (by rw [hp1]; exact h1) (by rw [hq]; exact h2) h5
+    rw [hq] at this; exact this
+  · intro q hq hr h1 h2 h5
+    unfold Prog.evalQ
+    rw [d1, d2, g3]
+    have hp1 : q.p - 1 = 52 := by omega
+    have := veltkamp_split q r hr binary64 4728779608772575232 27 c64 (by omega) (by omega) k e (by rw [hp1]; exact h1) (by rw [hq]; exact h2) h5
+    rw [hq] at this; exact this
+
 /-- Every regenerated program is well formed (arguments refer to earlier nodes, inputs in range). -/
 theorem generated_wf : ∀ p ∈ FAVerif.Gen.C10.all, p.2.wf = true := by decide +kernel
 
